@@ -41,6 +41,13 @@ PROGRAMS = [
     "[1, 2].filter(i, i < x).map(i, i + y)",
     "has({'a': x}.a) && x != y",
     "string(x) + string(y)",
+    "['cache-1', 'db-2', 'cache-x'].exists(w, w.matches('^cache-[0-9]+$')) ? x : y",
+    "['ab', 'ba'].filter(w, w.matches('^a')).size() + x",
+    "string(x).matches('^1+0*$') && 'zz'.matches('z$')",
+    "['db-7'].all(w, w.matches('^db-[0-9]$')) || x > y",
+    "timestamp('2009-02-13T23:31:30Z').getHours('+01:00') + x",
+    "duration('90s') + duration('1h') > duration('1m') ? x : y",
+    "int(string(x)) + size(string(y))",
 ]
 RUNNERS = {"I": celpy.InterpretedRunner, "C": celpy.CompiledRunner}
 
@@ -83,7 +90,7 @@ def alone(thread: int, runner: str, prog: int, nevals: int) -> Tuple[Any, int]:
         _ALONE[key] = sched.run_alone(make_body(thread, runner, prog, nevals))
         names = getattr(sched.run_alone, "last_step_names", [])
         # steps (1-based) at which this thread, running alone, is inside one of the functions that touch process-wide state
-        _HOT[key] = [i + 1 for i, nm in enumerate(names) if nm in HOT_FUNCTIONS]
+        _HOT[key] = [i + 1 for i, nm in enumerate(names) if nm in HOT_FUNCTIONS or nm.startswith(("function_", "macro_", "tz_", "get"))]
     return _ALONE[key]
 
 
@@ -197,7 +204,7 @@ def exhaustive_single_preemption(run: common.Run, pairs: List[Tuple[Tuple, Tuple
     return n
 
 
-PAIRS = [(("C", 0, 2), ("C", 3, 2)), (("C", 2, 2), ("C", 1, 2)), (("C", 8, 2), ("I", 0, 2)), (("I", 2, 2), ("C", 5, 2)), (("C", 5, 2), ("C", 5, 2))]
+PAIRS = [(("C", 0, 2), ("C", 3, 2)), (("I", 12, 2), ("C", 15, 2)), (("C", 2, 2), ("C", 1, 2)), (("C", 8, 2), ("I", 0, 2)), (("I", 2, 2), ("C", 5, 2)), (("C", 5, 2), ("C", 5, 2)), (("C", 13, 2), ("I", 14, 2)), (("I", 16, 2), ("I", 17, 2))]
 
 
 def _shard(run: common.Run) -> None:
@@ -221,7 +228,7 @@ def main(run: common.Run) -> None:
         run.event("replayed")
     if run.tier == "quick":
         # every 16th single-preemption point of the first two pairs, then generated schedules, then a short stress
-        n = exhaustive_single_preemption(run, PAIRS[:2], run.fail, stride=16)
+        n = exhaustive_single_preemption(run, PAIRS[:2], run.fail, stride=8)
         run.extra["single_preemption_runs"] = n
         campaign(run)
         stress(run, 15, run.fail)
